@@ -269,17 +269,17 @@ Definition top_of (t : fmt) (op : N) : option (N * N) :=
 
 Definition cand_fmt (t : fmt) : fmt := match t with VOP3b => VOP3a | _ => t end.
 
-Definition sel_check : bool :=
-  forallb (fun r =>
-    match top_of (r_fmt r) (r_opcode r) with
-    | Some (a, h) =>
-        (23 <=? a) &&
-        forallb (fun j => match find (candidate (2 ^ 23 * (h * 2 ^ (a - 23) + j))) format_list with
-                          | Some f => format_eqb f (fmt_format (cand_fmt (r_fmt r)))
-                          | None => false
-                          end) (nrange (N.to_nat (2 ^ (a - 23))) 0)
-    | None => true
-    end) decode_table.
+Definition sel_row (r : row) : bool :=
+  match top_of (r_fmt r) (r_opcode r) with
+  | Some (a, h) =>
+      (23 <=? a) &&
+      forallb (fun j => match find (candidate (2 ^ 23 * (h * 2 ^ (a - 23) + j))) format_list with
+                        | Some f => format_eqb f (fmt_format (cand_fmt (r_fmt r)))
+                        | None => false
+                        end) (nrange (N.to_nat (2 ^ (a - 23))) 0)
+  | None => true
+  end.
+Definition sel_check : bool := forallb sel_row decode_table.
 Lemma sel_check_true : sel_check = true.
 Proof. vm_compute. reflexivity. Qed.
 
@@ -298,7 +298,7 @@ Lemma select_format r w a h :
   find (candidate w) format_list = Some (fmt_format (cand_fmt (r_fmt r))).
 Proof.
   intros Hin Ht Hw. pose proof sel_check_true as E. unfold sel_check in E.
-  rewrite forallb_forall in E. specialize (E r Hin). rewrite Ht in E.
+  rewrite forallb_forall in E. specialize (E r Hin). unfold sel_row in E. rewrite Ht in E.
   apply andb_true_iff in E. destruct E as [Ha E]. apply N.leb_le in Ha.
   rewrite forallb_forall in E.
   set (t := w / 2 ^ 23).
